@@ -148,7 +148,7 @@ def split_program(line):
     ar = {"tnew": 1, "tnewsh": 1, "trel": 1, "tdel": 1, "tasg": 2, "tmasg": 2, "tnot": 1, "sempty": 2, "scopy": 2, "smove": 2, "sasg": 2, "smasg": 2,
           "scall": 3, "sblock": 2, "sdisc": 1, "sdel": 1, "sq": 1, "gnew": 4, "gcopy": 2, "gmove": 2, "gasg": 2, "gmasg": 2, "gdel": 1,
           "gconn": 5, "gemit": 3, "gclear": 1, "gblock": 2, "gq": 1, "gmk": 2, "cempty": 1, "ccopy": 2, "casg": 2, "cdisc": 1,
-          "cblock": 2, "cdel": 1, "cq": 1, "gshare": 1, "grel": 1, "cmove": 2, "cmasg": 2, "knewm": 2, "kasgm": 2, "knew": 2, "kempty": 1, "kasg": 2, "kmove": 2, "kmasg": 2, "kswap": 2, "krel": 2,
+          "cblock": 2, "cdel": 1, "cq": 1, "gshare": 1, "grel": 1, "cshare": 1, "crel": 1, "cmove": 2, "cmasg": 2, "knewm": 2, "kasgm": 2, "knew": 2, "kempty": 1, "kasg": 2, "kmove": 2, "kmasg": 2, "kswap": 2, "krel": 2,
           "kdisc": 1, "kblock": 2, "kdel": 1, "kq": 1, "probe": 0, "throw": 0,
           "acopy": 2, "ainc": 1, "adec": 1, "aincp": 1, "adecp": 1, "awalkp": 1, "awalkrevp": 1, "aderef": 1, "awalk": 1, "awalkrev": 1, "awalkuntil": 2}
     while i < len(toks):
